@@ -13,18 +13,66 @@ Ltac Zify.zify_post_hook ::= Z.div_mod_to_equations.
 Module S := NetInSess.
 Module H := NetRtpHeader.
 
-(* ---------------------------------------------------------------- reference RTP writer (RFC 3550 5.1, no CSRC / extension / padding) *)
-Definition rtp_raw (mark pt seq ts ssrc : N) (body : bytes) : bytes :=
-  128 :: (mark * 128 + pt) :: be_put 2 seq ++ be_put 4 ts ++ be_put 4 ssrc ++ body.
+(* ---------------------------------------------------------------- reference RTP writer (RFC 3550 5.1, every header variant) *)
+(* marker bit, CSRC list (0 .. 15 identifiers), header extension (profile, data of 4*n bytes),
+   padding (fill octets followed by the count of padding octets, the count included) *)
+Record hvar := mk_hvar { hv_mark : N; hv_csrc : list N; hv_ext : option (N * bytes); hv_pad : option bytes }.
+Definition hv_plain : hvar := mk_hvar 0 [] None None.
 
-(* one arrival of the C12 container (seq, ts, payload) as a packet on the wire *)
-Definition raw_of (pt ssrc : N) (a : N * N * bytes) : bytes := rtp_raw 0 pt (fst (fst a)) (snd (fst a)) ssrc (snd a).
+Definition ext_bytes (e : option (N * bytes)) : bytes :=
+  match e with None => [] | Some (prof, d) => be_put 2 prof ++ be_put 2 (lenN d / 4) ++ d end.
+Definition pad_bytes (p : option bytes) : bytes :=
+  match p with None => [] | Some fill => fill ++ [lenN fill + 1] end.
+Definition flag {A} (o : option A) : N := match o with None => 0 | Some _ => 1 end.
+
+Definition hv_ok (v : hvar) : Prop :=
+  hv_mark v < 2 /\ (length (hv_csrc v) <= 15)%nat /\ Forall (fun c => c < 4294967296) (hv_csrc v) /\
+  match hv_ext v with None => True | Some (prof, d) => prof < 65536 /\ lenN d mod 4 = 0 /\ lenN d < 262144 end /\
+  match hv_pad v with None => True | Some fill => lenN fill < 255 end.
+
+Definition rtp_pre (v : hvar) (pt seq ts ssrc : N) : bytes :=
+  (128 + 32 * flag (hv_pad v) + 16 * flag (hv_ext v) + lenN (hv_csrc v)) :: (hv_mark v * 128 + pt)
+  :: be_put 2 seq ++ be_put 4 ts ++ be_put 4 ssrc ++ (concat (map (be_put 4) (hv_csrc v)) ++ ext_bytes (hv_ext v)).
+
+Definition rtp_raw (v : hvar) (pt seq ts ssrc : N) (body : bytes) : bytes :=
+  rtp_pre v pt seq ts ssrc ++ body ++ pad_bytes (hv_pad v).
+
+(* one arrival of the C12 container (seq, ts, payload) as a packet on the wire; [V] chooses the header variant *)
+Definition raw_of (V : N * N * bytes -> hvar) (pt ssrc : N) (a : N * N * bytes) : bytes :=
+  rtp_raw (V a) pt (fst (fst a)) (snd (fst a)) ssrc (snd a).
 
 Definition arr_ok (a : N * N * bytes) : Prop :=
   fst (fst a) < 65536 /\ snd (fst a) < 4294967296 /\ snd a <> [] /\ bytes_ok (snd a) /\ lenN (snd a) < 65536.
 
-Lemma lenN_raw mark pt seq ts ssrc body : lenN (rtp_raw mark pt seq ts ssrc body) = 12 + lenN body.
-Proof. unfold rtp_raw. cbn [be_put app]. rewrite !NetChkProofs.lenN_cons. lia. Qed.
+Lemma lenN_app {A} (a b : list A) : lenN (a ++ b) = lenN a + lenN b.
+Proof. unfold lenN. rewrite app_length. lia. Qed.
+
+Lemma lenN_be_put n v : lenN (be_put n v) = N.of_nat n.
+Proof. unfold lenN. rewrite be_put_length. reflexivity. Qed.
+
+Lemma lenN_csrc cs : lenN (concat (map (be_put 4) cs)) = 4 * lenN cs.
+Proof.
+  induction cs as [|c t IH]; [reflexivity|]. cbn [map concat]. rewrite lenN_app, IH, NetChkProofs.lenN_cons, lenN_be_put. lia.
+Qed.
+
+Definition ext_len (e : option (N * bytes)) : N := match e with None => 0 | Some (_, d) => 4 + lenN d end.
+Lemma lenN_ext e : lenN (ext_bytes e) = ext_len e.
+Proof.
+  destruct e as [[prof d]|]; [|reflexivity]. cbn [ext_bytes ext_len]. rewrite !lenN_app, !lenN_be_put. lia.
+Qed.
+
+Definition pre_len (v : hvar) : N := 12 + 4 * lenN (hv_csrc v) + ext_len (hv_ext v).
+Lemma lenN_pre v pt seq ts ssrc : lenN (rtp_pre v pt seq ts ssrc) = pre_len v.
+Proof.
+  unfold rtp_pre, pre_len. cbn [be_put app]. rewrite !NetChkProofs.lenN_cons, lenN_app, lenN_csrc, lenN_ext. lia.
+Qed.
+
+Definition pad_len (p : option bytes) : N := match p with None => 0 | Some fill => lenN fill + 1 end.
+Lemma lenN_pad p : lenN (pad_bytes p) = pad_len p.
+Proof. destruct p as [fill|]; [|reflexivity]. cbn [pad_bytes pad_len]. rewrite lenN_app. reflexivity. Qed.
+
+Lemma lenN_raw v pt seq ts ssrc body : lenN (rtp_raw v pt seq ts ssrc body) = pre_len v + lenN body + pad_len (hv_pad v).
+Proof. unfold rtp_raw. rewrite !lenN_app, lenN_pre, lenN_pad. lia. Qed.
 
 Lemma bbe_at n b off : off + n <= lenN b ->
   H.bbe n b off = Ok (be_get (firstn (N.to_nat n) (skipn (N.to_nat off) b))).
@@ -34,31 +82,142 @@ Proof.
   assert (lenN b <? off + n = false) as -> by (apply N.ltb_ge; lia). reflexivity.
 Qed.
 
-Lemma parse_raw mark pt seq ts ssrc body :
-  mark < 2 -> pt < 128 -> seq < 65536 -> ts < 4294967296 -> ssrc < 4294967296 -> body <> [] ->
-  exists h, H.parse_rtp_header true (rtp_raw mark pt seq ts ssrc body) = Ok h /\
-            H.rh_seq h = seq /\ H.rh_ts h = ts /\ H.rh_pt h = pt /\
-            H.rtp_body (rtp_raw mark pt seq ts ssrc body) h = Ok (body, []).
+(* a big-endian field of [n] bytes behind [pre] *)
+Lemma bbe_mid n v pre rest : v < 256 ^ N.of_nat n -> H.bbe (N.of_nat n) (pre ++ be_put n v ++ rest) (lenN pre) = Ok v.
 Proof.
-  intros Hm Hpt Hseq Hts Hss Hbody. set (raw := rtp_raw mark pt seq ts ssrc body).
-  assert (Hlen : lenN raw = 12 + lenN body) by apply lenN_raw.
+  intros Hv. rewrite bbe_at.
+  - unfold lenN. rewrite !Nat2N.id, skipn_app, skipn_all, Nat.sub_diag. cbn [app skipn].
+    rewrite <- (be_put_length n v) at 1. rewrite firstn_app, firstn_all, Nat.sub_diag. cbn [firstn]. rewrite app_nil_r.
+    rewrite be_get_put_small by exact Hv. reflexivity.
+  - rewrite !lenN_app, lenN_be_put. lia.
+Qed.
+
+Lemma parse_csrc_ok : forall cs pre rest acc, Forall (fun c => c < 4294967296) cs ->
+  H.parse_csrc (length cs) (pre ++ concat (map (be_put 4) cs) ++ rest) (lenN pre) acc = Ok (rev acc ++ cs, lenN pre + 4 * lenN cs).
+Proof.
+  induction cs as [|c t IH]; intros pre rest acc Hc; cbn [length H.parse_csrc map concat].
+  - rewrite app_nil_r. replace (lenN pre + 4 * lenN (@nil N)) with (lenN pre) by (unfold lenN; cbn [length]; lia). reflexivity.
+  - inversion Hc as [|? ? Hc1 Hc2]; subst. rewrite <- app_assoc.
+    assert (lenN (pre ++ be_put 4 c ++ concat (map (be_put 4) t) ++ rest) <? lenN pre + 4 = false) as ->.
+    { apply N.ltb_ge. rewrite !lenN_app, lenN_be_put. lia. }
+    change 4 with (N.of_nat 4) at 1. rewrite bbe_mid by (cbn; lia). cbn [bind].
+    specialize (IH (pre ++ be_put 4 c) rest (c :: acc) Hc2). rewrite <- app_assoc in IH.
+    rewrite lenN_app, lenN_be_put in IH. change (N.of_nat 4) with 4 in IH. rewrite IH.
+    cbn [rev]. rewrite <- app_assoc. cbn [app]. f_equal. f_equal. rewrite NetChkProofs.lenN_cons. lia.
+Qed.
+
+Lemma mid_split {A} (pre body post : list A) :
+  firstn (length body) (skipn (length pre) (pre ++ body ++ post)) = body /\
+  skipn (length pre + length body) (pre ++ body ++ post) = post.
+Proof.
+  split.
+  - rewrite skipn_app, skipn_all, Nat.sub_diag. cbn [app skipn]. rewrite firstn_app, firstn_all, Nat.sub_diag. cbn [firstn]. apply app_nil_r.
+  - rewrite app_assoc, <- app_length, skipn_app, skipn_all, Nat.sub_diag. reflexivity.
+Qed.
+
+Lemma nth_error_last {A} (l : list A) x : nth_error (l ++ [x]) (length l) = Some x.
+Proof. rewrite nth_error_app2 by lia. rewrite Nat.sub_diag. reflexivity. Qed.
+
+Lemma parse_raw v pt seq ts ssrc body :
+  hv_ok v -> pt < 128 -> seq < 65536 -> ts < 4294967296 -> ssrc < 4294967296 -> body <> [] ->
+  exists h, H.parse_rtp_header true (rtp_raw v pt seq ts ssrc body) = Ok h /\
+            H.rh_seq h = seq /\ H.rh_ts h = ts /\ H.rh_pt h = pt /\
+            H.rtp_body (rtp_raw v pt seq ts ssrc body) h = Ok (body, pad_bytes (hv_pad v)).
+Proof.
+  intros (Hm & Hcc & Hcs & Hext & Hpad) Hpt Hseq Hts Hss Hbody. set (raw := rtp_raw v pt seq ts ssrc body).
+  assert (Hlen : lenN raw = pre_len v + lenN body + pad_len (hv_pad v)) by apply lenN_raw.
   assert (Hb1 : 1 <= lenN body) by (destruct body; [congruence|rewrite NetChkProofs.lenN_cons; lia]).
+  assert (Hcc' : lenN (hv_csrc v) <= 15) by (unfold lenN; lia).
+  set (b0 := 128 + 32 * flag (hv_pad v) + 16 * flag (hv_ext v) + lenN (hv_csrc v)).
+  assert (Hf1 : flag (hv_pad v) < 2) by (destruct (hv_pad v); cbn; lia).
+  assert (Hf2 : flag (hv_ext v) < 2) by (destruct (hv_ext v); cbn; lia).
+  assert (B1 : b0 mod 16 = lenN (hv_csrc v)) by (subst b0; lia).
+  assert (B2 : (b0 / 16) mod 2 = flag (hv_ext v)) by (subst b0; lia).
+  assert (B3 : (b0 / 32) mod 2 = flag (hv_pad v)) by (subst b0; lia).
   unfold H.parse_rtp_header. cbv zeta.
-  assert (lenN raw <? 12 = false) as -> by (apply N.ltb_ge; lia).
-  unfold H.bidx. rewrite (RemuxPsPesProofs.idx_nth _ raw 0 128) by reflexivity. cbn [bind].
-  rewrite (RemuxPsPesProofs.idx_nth _ raw 1 (mark * 128 + pt)) by reflexivity. cbn [bind].
+  assert (lenN raw <? 12 = false) as -> by (apply N.ltb_ge; unfold pre_len in Hlen; lia).
+  unfold H.bidx. rewrite (RemuxPsPesProofs.idx_nth _ raw 0 b0) by reflexivity. cbn [bind].
+  rewrite (RemuxPsPesProofs.idx_nth _ raw 1 (hv_mark v * 128 + pt)) by reflexivity. cbn [bind].
+  assert (Hp12 : 12 <= lenN raw) by (unfold pre_len in Hlen; lia).
   rewrite (bbe_at 2 raw 2) by lia. rewrite (bbe_at 4 raw 4) by lia. rewrite (bbe_at 4 raw 8) by lia. cbn [bind].
-  change (128 mod 16) with 0. change ((128 / 16) mod 2) with 0. change ((128 / 32) mod 2) with 0.
-  change (N.to_nat 0) with 0%nat. cbn [H.parse_csrc rev bind]. change (0 =? 0) with true. cbv iota. cbn [bind].
-  assert (lenN raw <=? 12 = false) as -> by (apply N.leb_gt; lia).
-  change (0 =? 1) with false. cbv iota. cbn [bind andb].
+  rewrite B1, B2, B3.
+  (* the CSRC list *)
+  set (hdr12 := b0 :: (hv_mark v * 128 + pt) :: be_put 2 seq ++ be_put 4 ts ++ be_put 4 ssrc).
+  assert (Eraw : raw = hdr12 ++ concat (map (be_put 4) (hv_csrc v)) ++ (ext_bytes (hv_ext v) ++ body ++ pad_bytes (hv_pad v))).
+  { subst raw hdr12. unfold rtp_raw, rtp_pre. fold b0. cbn [be_put app]. rewrite <- !app_assoc. reflexivity. }
+  assert (Eh12 : lenN hdr12 = 12) by reflexivity.
+  assert (Ecs : N.to_nat (lenN (hv_csrc v)) = length (hv_csrc v)) by (unfold lenN; lia).
+  rewrite Ecs. pose proof (parse_csrc_ok (hv_csrc v) hdr12 (ext_bytes (hv_ext v) ++ body ++ pad_bytes (hv_pad v)) [] Hcs) as Pc.
+  rewrite <- Eraw, Eh12 in Pc. rewrite Pc. cbn [bind rev app].
+  set (off1 := 12 + 4 * lenN (hv_csrc v)).
+  (* the extension *)
+  assert (Pe : exists prof exts,
+    (if flag (hv_ext v) =? 0 then Ok (0, [], off1)
+     else if lenN raw <? off1 + 4 then Err NetChk.e_short
+     else let* prof := H.bbe 2 raw off1 in let* el := H.bbe 2 raw (off1 + 2) in
+          let off := off1 + 4 in let n := 4 * el in
+          if lenN raw <? off + n then Err NetChk.e_short
+          else let* e := NetChk.slice NetChk.s_rtphdr_slice raw off (off + n) in Ok (prof, e, off + n))
+    = Ok (prof, exts, pre_len v)).
+  { destruct (hv_ext v) as [[prof d]|] eqn:Ee; cbn [flag].
+    - change (1 =? 0) with false. cbv iota. destruct Hext as (Hprof & Hd4 & Hdl).
+      cbn [ext_len] in *. unfold pre_len in Hlen. rewrite Ee in Hlen. cbn [ext_len] in Hlen.
+      assert (lenN raw <? off1 + 4 = false) as -> by (apply N.ltb_ge; subst off1; lia).
+      set (pre1 := hdr12 ++ concat (map (be_put 4) (hv_csrc v))).
+      assert (Lp1 : lenN pre1 = off1) by (subst pre1 off1; rewrite lenN_app, lenN_csrc, Eh12; reflexivity).
+      assert (Eraw1 : raw = pre1 ++ be_put 2 prof ++ (be_put 2 (lenN d / 4) ++ d ++ body ++ pad_bytes (hv_pad v))).
+      { rewrite Eraw. subst pre1. cbn [ext_bytes]. rewrite <- !app_assoc. reflexivity. }
+      assert (P1 : H.bbe 2 raw off1 = Ok prof).
+      { rewrite Eraw1, <- Lp1. change 2 with (N.of_nat 2) at 1. apply bbe_mid. cbn. lia. }
+      rewrite P1. cbn [bind].
+      assert (Eraw2 : raw = (pre1 ++ be_put 2 prof) ++ be_put 2 (lenN d / 4) ++ (d ++ body ++ pad_bytes (hv_pad v))).
+      { rewrite Eraw1, <- !app_assoc. reflexivity. }
+      assert (Lp2 : lenN (pre1 ++ be_put 2 prof) = off1 + 2) by (rewrite lenN_app, Lp1; reflexivity).
+      assert (P2 : H.bbe 2 raw (off1 + 2) = Ok (lenN d / 4)).
+      { rewrite Eraw2, <- Lp2. change 2 with (N.of_nat 2) at 1. apply bbe_mid. cbn. lia. }
+      rewrite P2. cbn [bind]. cbv zeta.
+      assert (E4 : 4 * (lenN d / 4) = lenN d) by lia. rewrite E4.
+      assert (lenN raw <? off1 + 4 + lenN d = false) as -> by (apply N.ltb_ge; subst off1; lia).
+      rewrite NetChkProofs.slice_ok by (subst off1; lia). cbn [bind]. eexists _, _. f_equal. f_equal. unfold pre_len. rewrite Ee. cbn [ext_len]. subst off1. lia.
+    - change (0 =? 0) with true. cbv iota. eexists _, _. f_equal. f_equal. unfold pre_len. rewrite Ee. cbn [ext_len]. subst off1. lia. }
+  destruct Pe as (prof & exts & Pe).
+  match goal with |- context [if flag (hv_ext v) =? 0 then ?A else ?B] =>
+    assert (EX : (if flag (hv_ext v) =? 0 then A else B) = Ok (prof, exts, pre_len v)) by exact Pe; rewrite EX; clear EX end.
+  cbn [bind].
+  assert (lenN raw <=? pre_len v = false) as -> by (apply N.leb_gt; lia).
+  (* the padding count *)
+  assert (Ppad : (if flag (hv_pad v) =? 1 then NetChk.idx NetChk.s_rtphdr_index raw (lenN raw - 1) else Ok 0) = Ok (pad_len (hv_pad v))).
+  { destruct (hv_pad v) as [fill|] eqn:Ep; cbn [flag pad_len]; [|reflexivity]. change (1 =? 1) with true. cbv iota.
+    apply RemuxPsPesProofs.idx_nth.
+    assert (Er : raw = (rtp_pre v pt seq ts ssrc ++ body ++ fill) ++ [lenN fill + 1]).
+    { subst raw. unfold rtp_raw. rewrite Ep. cbn [pad_bytes]. rewrite <- !app_assoc. reflexivity. }
+    remember (rtp_pre v pt seq ts ssrc ++ body ++ fill) as A eqn:EA.
+    assert (EL : N.to_nat (lenN raw - 1) = length A).
+    { rewrite Er, lenN_app. unfold lenN. cbn [length]. lia. }
+    rewrite EL, Er. apply nth_error_last. }
+  rewrite Ppad. cbn [bind].
+  assert (Hguard : (flag (hv_pad v) =? 1) && (lenN raw <=? pre_len v + pad_len (hv_pad v)) = false).
+  { apply andb_false_iff. right. apply N.leb_gt. lia. }
+  cbn [andb]. rewrite Hguard.
   eexists. split; [reflexivity|]. cbn [H.rh_seq H.rh_ts H.rh_pt].
   assert (E2 : firstn (N.to_nat 2) (skipn (N.to_nat 2) raw) = be_put 2 seq) by reflexivity.
   assert (E4 : firstn (N.to_nat 4) (skipn (N.to_nat 4) raw) = be_put 4 ts) by reflexivity.
   rewrite E2, E4. rewrite !be_get_put_small by (cbn; lia).
   split; [reflexivity|]. split; [reflexivity|]. split; [lia|].
-  unfold H.rtp_body. cbn [H.rh_payload_offset H.rh_padding H.rh_padding_len]. change (12 =? 0) with false. change (0 =? 1) with false. cbv iota.
-  assert (12 <=? lenN raw = true) as -> by (apply N.leb_le; lia). reflexivity.
+  unfold H.rtp_body. cbn [H.rh_payload_offset H.rh_padding H.rh_padding_len].
+  assert (pre_len v =? 0 = false) as -> by (apply N.eqb_neq; unfold pre_len; lia).
+  assert (Lpre : N.to_nat (pre_len v) = length (rtp_pre v pt seq ts ssrc)) by (rewrite <- (lenN_pre v pt seq ts ssrc); unfold lenN; lia).
+  destruct (hv_pad v) as [fill|] eqn:Ep; cbn [flag pad_len pad_bytes] in *.
+  - change (1 =? 1) with true. cbv iota.
+    assert (pre_len v + (lenN fill + 1) <=? lenN raw = true) as -> by (apply N.leb_le; lia).
+    assert (Lb : N.to_nat (lenN raw - (lenN fill + 1) - pre_len v) = length body) by (rewrite Hlen; unfold lenN; lia).
+    assert (Lc : N.to_nat (lenN raw - (lenN fill + 1)) = (length (rtp_pre v pt seq ts ssrc) + length body)%nat) by (rewrite Hlen, <- Lpre; unfold lenN; lia).
+    rewrite Lb, Lc, Lpre. subst raw. unfold rtp_raw. rewrite Ep. cbn [pad_bytes].
+    destruct (mid_split (rtp_pre v pt seq ts ssrc) body (fill ++ [lenN fill + 1])) as [M1 M2]. rewrite M1, M2. reflexivity.
+  - change (0 =? 1) with false. cbv iota.
+    assert (pre_len v <=? lenN raw = true) as -> by (apply N.leb_le; lia).
+    rewrite Lpre. subst raw. unfold rtp_raw. rewrite Ep. cbn [pad_bytes]. rewrite app_nil_r.
+    rewrite skipn_app, skipn_all, Nat.sub_diag. reflexivity.
 Qed.
 
 (* ---------------------------------------------------------------- one packet through handleRtpPacket *)
@@ -67,54 +226,60 @@ Definition set_vcont (s : S.sess) (ssrc : N) (seq : N) (c : U13.ucont) : S.sess 
 Definition set_acont (s : S.sess) (ssrc : N) (seq : N) (c : U13.ucont) : S.sess :=
   S.mk_sess ssrc (S.ss_vssrc s) (NetRtcp.rrp_feed (S.ss_arr s) seq) (S.ss_vrr s) c (S.ss_vcont s).
 
-Lemma idx1_raw mark pt seq ts ssrc body :
-  NetChk.idx NetChk.s_rtphdr_index (rtp_raw mark pt seq ts ssrc body) 1 = Ok (mark * 128 + pt).
+Lemma idx1_raw v pt seq ts ssrc body :
+  NetChk.idx NetChk.s_rtphdr_index (rtp_raw v pt seq ts ssrc body) 1 = Ok (hv_mark v * 128 + pt).
 Proof. apply RemuxPsPesProofs.idx_nth. reflexivity. Qed.
 
+Lemma raw_ge12 v pt seq ts ssrc body : lenN (rtp_raw v pt seq ts ssrc body) <? 12 = false.
+Proof. apply N.ltb_ge. rewrite lenN_raw. unfold pre_len. lia. Qed.
+
 (* a packet of the video track *)
-Lemma handle_video cfg s u ch pt ssrc a :
+Lemma handle_video V cfg s u ch pt ssrc a :
   S.sc_vunp cfg = Some u -> S.sc_vpt cfg = Z.of_N pt -> S.sc_apt cfg <> Z.of_N pt ->
-  (ch = S.sc_artp cfg \/ ch = S.sc_vrtp cfg) -> pt < 128 -> ssrc < 4294967296 -> arr_ok a ->
-  exists h, H.rh_seq h = fst (fst a) /\ H.rh_ts h = snd (fst a) /\ H.rtp_body (raw_of pt ssrc a) h = Ok (snd a, []) /\
-    S.handle_interleaved true cfg s ch (raw_of pt ssrc a) =
-    let* (c, avs) := U13.cont_feed true u S.unpacker_max_size (S.ss_vcont s) h (raw_of pt ssrc a) in
+  (ch = S.sc_artp cfg \/ ch = S.sc_vrtp cfg) -> pt < 128 -> ssrc < 4294967296 -> arr_ok a -> hv_ok (V a) ->
+  exists h, H.rh_seq h = fst (fst a) /\ H.rh_ts h = snd (fst a) /\
+    H.rtp_body (raw_of V pt ssrc a) h = Ok (snd a, pad_bytes (hv_pad (V a))) /\
+    S.handle_interleaved true cfg s ch (raw_of V pt ssrc a) =
+    let* (c, avs) := U13.cont_feed true u S.unpacker_max_size (S.ss_vcont s) h (raw_of V pt ssrc a) in
     Ok (set_vcont s (H.rh_ssrc h) (H.rh_seq h) c, S.EvRtp (H.rh_seq h) :: map S.EvAv avs).
 Proof.
-  intros Hu Hv Ha Hch Hpt Hss (Hseq & Hts & Hne & _ & Hlen). destruct a as [[seq ts] body]. cbn [fst snd] in *.
-  destruct (parse_raw 0 pt seq ts ssrc body) as (h & Ep & E1 & E2 & E3 & E4); try assumption; [lia|].
+  intros Hu Hv Ha Hch Hpt Hss (Hseq & Hts & Hne & _ & Hlen) Hvar. pose proof Hvar as (Hmk & _). unfold raw_of.
+  destruct a as [[seq ts] body]. cbn [fst snd] in *. set (v := V (seq, ts, body)) in *.
+  destruct (parse_raw v pt seq ts ssrc body) as (h & Ep & E1 & E2 & E3 & E4); try assumption.
   exists h. split; [exact E1|]. split; [exact E2|]. split; [exact E4|].
   unfold S.handle_interleaved.
   assert ((ch =? S.sc_artp cfg) || (ch =? S.sc_vrtp cfg) = true) as ->.
   { apply orb_true_iff. destruct Hch as [->| ->]; [left|right]; apply N.eqb_refl. }
-  unfold S.handle_rtp, raw_of. cbn [fst snd].
-  assert (lenN (rtp_raw 0 pt seq ts ssrc body) <? 12 = false) as -> by (apply N.ltb_ge; rewrite lenN_raw; lia).
-  rewrite idx1_raw. cbn [bind]. replace ((0 * 128 + pt) mod 128) with pt by lia.
+  unfold S.handle_rtp. rewrite raw_ge12, idx1_raw. cbn [bind]. replace ((hv_mark v * 128 + pt) mod 128) with pt by lia.
   assert ((S.sc_apt cfg =? Z.of_N pt)%Z = false) as -> by (apply Z.eqb_neq; exact Ha).
   assert ((S.sc_vpt cfg =? Z.of_N pt)%Z = true) as -> by (apply Z.eqb_eq; exact Hv).
   cbn [orb negb]. rewrite Ep, Hu. cbn [S.feed_opt]. reflexivity.
 Qed.
 
 (* a packet of the audio track *)
-Lemma handle_audio cfg s u ch pt ssrc a :
+Lemma handle_audio V cfg s u ch pt ssrc a :
   S.sc_aunp cfg = Some u -> S.sc_apt cfg = Z.of_N pt ->
-  (ch = S.sc_artp cfg \/ ch = S.sc_vrtp cfg) -> pt < 128 -> ssrc < 4294967296 -> arr_ok a ->
-  exists h, H.rh_seq h = fst (fst a) /\ H.rh_ts h = snd (fst a) /\ H.rtp_body (raw_of pt ssrc a) h = Ok (snd a, []) /\
-    S.handle_interleaved true cfg s ch (raw_of pt ssrc a) =
-    let* (c, avs) := U13.cont_feed true u S.unpacker_max_size (S.ss_acont s) h (raw_of pt ssrc a) in
+  (ch = S.sc_artp cfg \/ ch = S.sc_vrtp cfg) -> pt < 128 -> ssrc < 4294967296 -> arr_ok a -> hv_ok (V a) ->
+  exists h, H.rh_seq h = fst (fst a) /\ H.rh_ts h = snd (fst a) /\
+    H.rtp_body (raw_of V pt ssrc a) h = Ok (snd a, pad_bytes (hv_pad (V a))) /\
+    S.handle_interleaved true cfg s ch (raw_of V pt ssrc a) =
+    let* (c, avs) := U13.cont_feed true u S.unpacker_max_size (S.ss_acont s) h (raw_of V pt ssrc a) in
     Ok (set_acont s (H.rh_ssrc h) (H.rh_seq h) c, S.EvRtp (H.rh_seq h) :: map S.EvAv avs).
 Proof.
-  intros Hu Ha Hch Hpt Hss (Hseq & Hts & Hne & _ & Hlen). destruct a as [[seq ts] body]. cbn [fst snd] in *.
-  destruct (parse_raw 0 pt seq ts ssrc body) as (h & Ep & E1 & E2 & E3 & E4); try assumption; [lia|].
+  intros Hu Ha Hch Hpt Hss (Hseq & Hts & Hne & _ & Hlen) Hvar. pose proof Hvar as (Hmk & _). unfold raw_of.
+  destruct a as [[seq ts] body]. cbn [fst snd] in *. set (v := V (seq, ts, body)) in *.
+  destruct (parse_raw v pt seq ts ssrc body) as (h & Ep & E1 & E2 & E3 & E4); try assumption.
   exists h. split; [exact E1|]. split; [exact E2|]. split; [exact E4|].
   unfold S.handle_interleaved.
   assert ((ch =? S.sc_artp cfg) || (ch =? S.sc_vrtp cfg) = true) as ->.
   { apply orb_true_iff. destruct Hch as [->| ->]; [left|right]; apply N.eqb_refl. }
-  unfold S.handle_rtp, raw_of. cbn [fst snd].
-  assert (lenN (rtp_raw 0 pt seq ts ssrc body) <? 12 = false) as -> by (apply N.ltb_ge; rewrite lenN_raw; lia).
-  rewrite idx1_raw. cbn [bind]. replace ((0 * 128 + pt) mod 128) with pt by lia.
+  unfold S.handle_rtp. rewrite raw_ge12, idx1_raw. cbn [bind]. replace ((hv_mark v * 128 + pt) mod 128) with pt by lia.
   assert ((S.sc_apt cfg =? Z.of_N pt)%Z = true) as -> by (apply Z.eqb_eq; exact Ha).
   cbn [orb negb]. rewrite Ep, Hu. cbn [S.feed_opt]. reflexivity.
 Qed.
+
+(* the AAC unpacker's slice expressions can reach the padding octets: its packets come without padding *)
+Definition pad_free (tf : bool) (v : hvar) : Prop := tf = true -> hv_pad v = None.
 
 (* ---------------------------------------------------------------- remuxer over lists *)
 Lemma feed_all_av_app fx : forall a b r,
@@ -140,7 +305,9 @@ Qed.
 
 (* ---------------------------------------------------------------- a single track, no interleave queue *)
 Section SingleVideo.
-Variables (fx rot : bool) (cfg : S.sess_cfg) (u : U13.unpacker) (ch pt ssrc : N).
+Variables (fx rot : bool) (cfg : S.sess_cfg) (u : U13.unpacker) (ch pt ssrc : N) (V : N * N * bytes -> hvar).
+Hypothesis HV : forall a, hv_ok (V a).
+Hypothesis HP : forall a, pad_free (tf_of (U13.uk_kind u)) (V a).
 Hypothesis Hclock : clock_pos (U13.uk_clock u).
 Hypothesis Hu : S.sc_vunp cfg = Some u.
 Hypothesis Hv : S.sc_vpt cfg = Z.of_N pt.
@@ -149,8 +316,8 @@ Hypothesis Hch : ch = S.sc_artp cfg \/ ch = S.sc_vrtp cfg.
 Hypothesis Hpt : pt < 128.
 Hypothesis Hss : ssrc < 4294967296.
 
-Lemma video_run : forall arrivals s c12 r groups, crel (S.ss_vcont s) c12 -> Forall arr_ok arrivals ->
-  rtsp_run fx rot cfg s None r (map (fun a => (ch, raw_of pt ssrc a)) arrivals) = Ok groups ->
+Lemma video_run : forall arrivals s c12 r groups, crel (tf_of (U13.uk_kind u)) (S.ss_vcont s) c12 -> Forall arr_ok arrivals ->
+  rtsp_run fx rot cfg s None r (map (fun a => (ch, raw_of V pt ssrc a)) arrivals) = Ok groups ->
   exists st12 outs r',
     C12.feed_all (pr_of (U13.uk_kind u)) (Z.to_N (U13.uk_clock u)) S.unpacker_max_size c12 arrivals = Ok (st12, outs) /\
     feed_all_av fx r (map (to_av (U13.uk_pt u)) outs) = Ok (r', concat groups).
@@ -158,10 +325,11 @@ Proof.
   induction arrivals as [|a t IH]; intros s c12 r groups Hr Hok E; cbn [map rtsp_run] in E.
   - injection E as <-. exists c12, [], r. split; reflexivity.
   - apply Forall_cons_iff in Hok as [Hak Hokt].
-    destruct (handle_video cfg s u ch pt ssrc a Hu Hv Ha Hch Hpt Hss Hak) as (h & Hseq & Hts & Hbody & Eh). rewrite Eh in E. clear Eh.
+    destruct (handle_video V cfg s u ch pt ssrc a Hu Hv Ha Hch Hpt Hss Hak (HV a)) as (h & Hseq & Hts & Hbody & Eh). rewrite Eh in E. clear Eh.
     pose proof Hak as (_ & _ & _ & Hbytes & Hlen).
-    pose proof (feed_sim u Hclock S.unpacker_max_size (S.ss_vcont s) c12 h (raw_of pt ssrc a) (snd a) Hr Hbody Hbytes Hlen) as Hf.
-    destruct (U13.cont_feed true u S.unpacker_max_size (S.ss_vcont s) h (raw_of pt ssrc a)) as [[c' avs]| |]; cbn [bind] in E; try discriminate.
+    assert (Htail : tf_of (U13.uk_kind u) = true -> pad_bytes (hv_pad (V a)) = []) by (intros Et; rewrite (HP a Et); reflexivity).
+    pose proof (feed_sim u Hclock S.unpacker_max_size (S.ss_vcont s) c12 h (raw_of V pt ssrc a) (snd a) _ Hr Hbody Htail Hbytes Hlen) as Hf.
+    destruct (U13.cont_feed true u S.unpacker_max_size (S.ss_vcont s) h (raw_of V pt ssrc a)) as [[c' avs]| |]; cbn [bind] in E; try discriminate.
     destruct Hf as (st1 & o1 & Ef & Hr1 & ->). rewrite Hseq, Hts in Ef.
     rewrite deliver_none in E.
     destruct (feed_all_av fx r (map (to_av (U13.uk_pt u)) o1)) as [[r1 m1]| |] eqn:Em; cbn [bind] in E; try discriminate.
@@ -175,7 +343,9 @@ Qed.
 End SingleVideo.
 
 Section SingleAudio.
-Variables (fx rot : bool) (cfg : S.sess_cfg) (u : U13.unpacker) (ch pt ssrc : N).
+Variables (fx rot : bool) (cfg : S.sess_cfg) (u : U13.unpacker) (ch pt ssrc : N) (V : N * N * bytes -> hvar).
+Hypothesis HV : forall a, hv_ok (V a).
+Hypothesis HP : forall a, pad_free (tf_of (U13.uk_kind u)) (V a).
 Hypothesis Hclock : clock_pos (U13.uk_clock u).
 Hypothesis Hu : S.sc_aunp cfg = Some u.
 Hypothesis Ha : S.sc_apt cfg = Z.of_N pt.
@@ -183,8 +353,8 @@ Hypothesis Hch : ch = S.sc_artp cfg \/ ch = S.sc_vrtp cfg.
 Hypothesis Hpt : pt < 128.
 Hypothesis Hss : ssrc < 4294967296.
 
-Lemma audio_run : forall arrivals s c12 r groups, crel (S.ss_acont s) c12 -> Forall arr_ok arrivals ->
-  rtsp_run fx rot cfg s None r (map (fun a => (ch, raw_of pt ssrc a)) arrivals) = Ok groups ->
+Lemma audio_run : forall arrivals s c12 r groups, crel (tf_of (U13.uk_kind u)) (S.ss_acont s) c12 -> Forall arr_ok arrivals ->
+  rtsp_run fx rot cfg s None r (map (fun a => (ch, raw_of V pt ssrc a)) arrivals) = Ok groups ->
   exists st12 outs r',
     C12.feed_all (pr_of (U13.uk_kind u)) (Z.to_N (U13.uk_clock u)) S.unpacker_max_size c12 arrivals = Ok (st12, outs) /\
     feed_all_av fx r (map (to_av (U13.uk_pt u)) outs) = Ok (r', concat groups).
@@ -192,10 +362,11 @@ Proof.
   induction arrivals as [|a t IH]; intros s c12 r groups Hr Hok E; cbn [map rtsp_run] in E.
   - injection E as <-. exists c12, [], r. split; reflexivity.
   - apply Forall_cons_iff in Hok as [Hak Hokt].
-    destruct (handle_audio cfg s u ch pt ssrc a Hu Ha Hch Hpt Hss Hak) as (h & Hseq & Hts & Hbody & Eh). rewrite Eh in E. clear Eh.
+    destruct (handle_audio V cfg s u ch pt ssrc a Hu Ha Hch Hpt Hss Hak (HV a)) as (h & Hseq & Hts & Hbody & Eh). rewrite Eh in E. clear Eh.
     pose proof Hak as (_ & _ & _ & Hbytes & Hlen).
-    pose proof (feed_sim u Hclock S.unpacker_max_size (S.ss_acont s) c12 h (raw_of pt ssrc a) (snd a) Hr Hbody Hbytes Hlen) as Hf.
-    destruct (U13.cont_feed true u S.unpacker_max_size (S.ss_acont s) h (raw_of pt ssrc a)) as [[c' avs]| |]; cbn [bind] in E; try discriminate.
+    assert (Htail : tf_of (U13.uk_kind u) = true -> pad_bytes (hv_pad (V a)) = []) by (intros Et; rewrite (HP a Et); reflexivity).
+    pose proof (feed_sim u Hclock S.unpacker_max_size (S.ss_acont s) c12 h (raw_of V pt ssrc a) (snd a) _ Hr Hbody Htail Hbytes Hlen) as Hf.
+    destruct (U13.cont_feed true u S.unpacker_max_size (S.ss_acont s) h (raw_of V pt ssrc a)) as [[c' avs]| |]; cbn [bind] in E; try discriminate.
     destruct Hf as (st1 & o1 & Ef & Hr1 & ->). rewrite Hseq, Hts in Ef.
     rewrite deliver_none in E.
     destruct (feed_all_av fx r (map (to_av (U13.uk_pt u)) o1)) as [[r1 m1]| |] eqn:Em; cbn [bind] in E; try discriminate.
@@ -228,15 +399,15 @@ Definition vcodec_tok (hevc : bool) : N := if hevc then S.c_h265 else S.c_h264.
 Definition vpt_of (hevc : bool) : Z := if hevc then pt_hevc else pt_avc.
 
 (* the in-session model on the packets of one video track = the C12 container on the same arrivals, then the remuxer *)
-Theorem rtsp_video_ingest fx filter rot (hevc : bool) vclock vpt ssrc arrivals groups :
+Theorem rtsp_video_ingest V fx filter rot (hevc : bool) vclock vpt ssrc arrivals groups : (forall a, hv_ok (V a)) ->
   (1000 <= vclock < 4294967296000)%Z -> 0 < vpt < 128 -> ssrc < 4294967296 -> Forall arr_ok arrivals ->
   rtsp_ingest fx filter rot S.c_none 0 0 None (vcodec_tok hevc) vclock (Z.of_N vpt) None None None
-              (map (fun a => (2, raw_of vpt ssrc a)) arrivals) = Ok groups ->
+              (map (fun a => (2, raw_of V vpt ssrc a)) arrivals) = Ok groups ->
   exists st12 outs r',
     C12.feed_all (pr_of (vkind hevc)) (Z.to_N vclock) 1024 C12.c_init arrivals = Ok (st12, outs) /\
     feed_all_av fx rs_new (map (to_av (vpt_of hevc)) outs) = Ok (r', concat groups).
 Proof.
-  intros Hclk Hvpt Hss Hok E. unfold rtsp_ingest in E.
+  intros HV Hclk Hvpt Hss Hok E. unfold rtsp_ingest in E.
   assert (Eaud : audio_unpackable S.c_none None = false) by reflexivity.
   rewrite Eaud, andb_false_r in E. cbn [andb] in E.
   change (init_with_av_config rs_new None None None None) with (@Ok (rstate * list rmsg) (rs_new, [])) in E. cbn [bind] in E.
@@ -253,8 +424,9 @@ Proof.
   destruct Hcfg as (Hv & Ha & Hch).
   destruct (rtsp_run fx rot cfg S.sess_init None rs_new _) as [more| |] eqn:Er; cbn [bind] in E; try discriminate.
   injection E as <-.
-  destruct (video_run fx rot cfg u 2 vpt ssrc) with (arrivals := arrivals) (s := S.sess_init) (c12 := C12.c_init) (r := rs_new) (groups := more)
+  destruct (video_run fx rot cfg u 2 vpt ssrc V) with (arrivals := arrivals) (s := S.sess_init) (c12 := C12.c_init) (r := rs_new) (groups := more)
     as (st12 & outs & r' & Ef & Em); try assumption.
+  - intros a Et. subst u. destruct hevc; discriminate Et.
   - subst u. cbn [U13.uk_clock]. unfold clock_pos. lia.
   - rewrite Ha. lia.
   - right. symmetry. exact Hch.
@@ -287,7 +459,8 @@ Proof.
     + constructor; [exact Ha|constructor].
 Qed.
 
-Theorem rtsp_video_end_to_end flt rot (hevc : bool) maxp vclock vpt ssrc s0 ts0 n0 pls0 (rest : list (N * bytes)) sched groups :
+Theorem rtsp_video_end_to_end V flt rot (hevc : bool) maxp vclock vpt ssrc s0 ts0 n0 pls0 (rest : list (N * bytes)) sched groups :
+  (forall a, hv_ok (V a)) ->
   let c := codec_of hevc in
   let pr := RtpFrames.proto_of_codec c in
   let rate := Z.to_N vclock in
@@ -303,12 +476,12 @@ Theorem rtsp_video_end_to_end flt rot (hevc : bool) maxp vclock vpt ssrc s0 ts0 
                   ++ map (fun i => RtpStreamProofs.upkt_arrival (RtpStreamProofs.pkt_at s i)) sched in
   Forall arr_ok arrivals ->
   rtsp_ingest true flt rot S.c_none 0 0 None (vcodec_tok hevc) vclock (Z.of_N vpt) None None None
-              (map (fun a => (2, raw_of vpt ssrc a)) arrivals) = Ok groups ->
+              (map (fun a => (2, raw_of V vpt ssrc a)) arrivals) = Ok groups ->
   RemuxAv2RtmpProofs.read_video_nals (RemuxAv2RtmpProofs.av_msgs (concat groups))
   = filter (RemuxAv2RtmpProofs.keep_nal hevc) (n0 :: map snd rest).
 Proof.
-  intros c pr rate Hh Hclk Hvpt Hss Hn0 Hrest Hl0 Hlrest Hs0 Hpack Hlen d s Hsched Hall arrivals Harr E.
-  destruct (rtsp_video_ingest true flt rot hevc vclock vpt ssrc arrivals groups Hclk Hvpt Hss Harr E) as (st12 & outs & r' & Ef & Em).
+  intros HV c pr rate Hh Hclk Hvpt Hss Hn0 Hrest Hl0 Hlrest Hs0 Hpack Hlen d s Hsched Hall arrivals Harr E.
+  destruct (rtsp_video_ingest V true flt rot hevc vclock vpt ssrc arrivals groups HV Hclk Hvpt Hss Harr E) as (st12 & outs & r' & Ef & Em).
   assert (Hrate : RtpFrames.rate_ok rate) by (subst rate; unfold RtpFrames.rate_ok; lia).
   assert (Epr : pr_of (vkind hevc) = pr) by (subst pr c; destruct hevc; reflexivity).
   rewrite Epr in Ef. fold rate in Ef. subst pr.
@@ -333,17 +506,18 @@ Definition akind (ac : N) : U13.ukind := if ac =? S.c_aac then U13.UAac else U13
 Definition apt_of (ac : N) : Z :=
   if ac =? S.c_aac then pt_aac else if ac =? S.c_pcma then pt_g711a else if ac =? S.c_pcmu then pt_g711u else pt_opus.
 
-Theorem rtsp_audio_ingest fx flt rot ac aclock apt ssrc asc arrivals groups :
+Theorem rtsp_audio_ingest V fx flt rot ac aclock apt ssrc asc arrivals groups :
+  (forall a, hv_ok (V a)) -> (ac = S.c_aac -> forall a, hv_pad (V a) = None) ->
   (ac = S.c_aac /\ asc <> None) \/ (ac = S.c_pcma \/ ac = S.c_pcmu \/ ac = S.c_opus) ->
   (1000 <= aclock < 4294967296000)%Z -> apt < 128 -> ssrc < 4294967296 -> Forall arr_ok arrivals ->
   rtsp_ingest fx flt rot ac aclock (Z.of_N apt) asc S.c_none 0 0 None None None
-              (map (fun a => (0, raw_of apt ssrc a)) arrivals) = Ok groups ->
+              (map (fun a => (0, raw_of V apt ssrc a)) arrivals) = Ok groups ->
   exists r0 ms0 more st12 outs r',
     init_with_av_config rs_new asc None None None = Ok (r0, ms0) /\ groups = ms0 :: more /\
     C12.feed_all (pr_of (akind ac)) (Z.to_N aclock) 1024 C12.c_init arrivals = Ok (st12, outs) /\
     feed_all_av fx r0 (map (to_av (apt_of ac)) outs) = Ok (r', concat more).
 Proof.
-  intros Hac Hclk Hapt Hss Hok E. unfold rtsp_ingest in E.
+  intros HV HP Hac Hclk Hapt Hss Hok E. unfold rtsp_ingest in E.
   assert (Evid : video_unpackable S.c_none = false) by reflexivity. rewrite Evid, andb_false_r in E.
   destruct (init_with_av_config rs_new asc None None None) as [[r0 ms0]| |] eqn:Ei; cbn [bind] in E; try discriminate.
   assert (Eac : (ac =? S.c_aac) && negb (is_some asc) = false).
@@ -363,8 +537,10 @@ Proof.
   destruct Hcfg as (Hu & Ha & Hch).
   destruct (rtsp_run fx rot cfg S.sess_init None r0 _) as [more| |] eqn:Er; cbn [bind] in E; try discriminate.
   injection E as <-.
-  destruct (audio_run fx rot cfg u 0 apt ssrc) with (arrivals := arrivals) (s := S.sess_init) (c12 := C12.c_init) (r := r0) (groups := more)
+  destruct (audio_run fx rot cfg u 0 apt ssrc V) with (arrivals := arrivals) (s := S.sess_init) (c12 := C12.c_init) (r := r0) (groups := more)
     as (st12 & outs & r' & Ef & Em); try assumption.
+  - intros a Et. apply HP. subst u. cbn [U13.uk_kind] in Et. unfold akind in Et.
+    destruct (ac =? S.c_aac) eqn:Eq; [apply N.eqb_eq; exact Eq|discriminate Et].
   - subst u. cbn [U13.uk_clock]. unfold clock_pos. lia.
   - left. symmetry. exact Hch.
   - apply crel_init.
